@@ -11,6 +11,7 @@ type Type struct {
 	Rows   int
 	Name   string
 	Fields []Field
+	Bits   int // scalar width when not 32 (8 for char/uchar)
 }
 
 type Field struct {
@@ -25,6 +26,8 @@ var (
 	tInt   = &Type{K: 'i', Name: "int"}
 	tUint  = &Type{K: 'u', Name: "uint"}
 	tFloat = &Type{K: 'f', Name: "float"}
+	tUchar = &Type{K: 'u', Name: "uchar", Bits: 8}
+	tChar  = &Type{K: 'i', Name: "char", Bits: 8}
 	tBuf   = &Type{K: 'B', Name: "RWByteAddressBuffer"}
 	tDef   = &Type{K: 'D', Name: "DefaultConstructible"}
 )
@@ -35,9 +38,13 @@ func vecOf(e *Type, n int) *Type { return &Type{K: 'V', Elem: e, N: n} }
 
 func scalarByName(s string) *Type {
 	switch s {
-	case "int", "int32_t", "char", "uchar", "short", "ushort":
+	case "int", "int32_t", "short", "ushort":
 		return tInt
-	case "uint", "uint32_t", "dword":
+	case "char":
+		return tChar
+	case "uchar":
+		return tUchar
+	case "uint", "uint32_t", "dword", "unsigned":
 		return tUint
 	case "float", "half", "min16float":
 		return tFloat
